@@ -3,7 +3,7 @@
 From Coq Require Import List ZArith Lia Bool Arith.
 Import ListNotations.
 Require Import C02.Sums C02.Batch C02.Tensor C02.Dense C02.Op C02.Model C02.Spec.
-Require Import C02.ProofsDense C02.ProofsBase C02.ProofsExpand C02.ProofsCtor C02.ProofsMT C02.ProofsMatmul C02.ProofsRaw C02.ProofsAdd C02.ProofsMul C02.ProofsSub C02.ProofsMulM C02.ProofsBatch C02.ProofsAddDiag.
+Require Import C02.ProofsDense C02.ProofsBase C02.ProofsExpand C02.ProofsCtor C02.ProofsMT C02.ProofsMatmul C02.ProofsRaw C02.ProofsAdd C02.ProofsMul C02.ProofsSub C02.ProofsMulM C02.ProofsBatch C02.ProofsAddDiag C02.ProofsPermute C02.ProofsSumBatch.
 Open Scope Z_scope.
 
 Definition scalar0b (d : BT) : bool :=
@@ -24,9 +24,16 @@ Fixpoint covered (p : Prog) : bool :=
   | PBin BSub a b => covered a && covered b
   | PBin BMul a b => covered a && covered b
   | PBinT BMul a (APy _) => covered a
+  | PBinT BMul a (ARaw r) => covered a && scalar0b r
   | PRBinT BMul (APy _) a => covered a
+  | PRBinT BMul (ARaw r) a => covered a && scalar0b r
+  | PDiv a (APy _) (APy _) => covered a
+  | PDiv a (ARaw _) (APy _) => covered a
   | PExpand a _ => covered a
   | PUnsqueeze a _ => covered a
+  | PPermute a _ => covered a
+  | PSumBatch a _ => covered a
+  | PTransposeB a _ _ => covered a
   | PAddJitter a _ => covered a
   | PAddDiagonal a d => covered a && scalar0b d
   | PmT a => covered a
@@ -82,17 +89,27 @@ Fixpoint safe (p : Prog) : bool :=
       safe a &&
       match o, t, eval_alg a with
       | BMul, APy z, Ok x => safe_mulc_step x z
+      | BMul, ARaw r, Ok x => safe_mulc_step x (c0 r)
       | _, _, _ => true
       end
   | PRBinT o t a =>
       safe a &&
       match o, t, eval_alg a with
       | BMul, APy z, Ok x => safe_mulc_step x z
+      | BMul, ARaw r, Ok x => safe_mulc_step x (c0 r)
       | _, _, _ => true
+      end
+  | PDiv a _ rc =>
+      safe a &&
+      match rc, eval_alg a with
+      | APy z, Ok x => safe_mulc_step x z
+      | _, _ => true
       end
   | PAddDiagonal a _ | PAddJitter a _ =>
       safe a && match eval_alg a with Ok x => zpath x | Err _ => true end
-  | PDiv a _ _ | PExpand a _ | PUnsqueeze a _ | PPermute a _ | PTransposeB a _ _ | PmT a
+  | PPermute a _ | PTransposeB a _ _ =>
+      safe a && match eval_alg a with Ok x => zfree x | Err _ => true end
+  | PExpand a _ | PUnsqueeze a _ | PmT a
   | PSumBatch a _ => safe a
   end.
 
@@ -134,6 +151,30 @@ Proof.
   eapply BTeq_trans; [apply (alg_mul_constant_correct0 x (zconst z) r W); try assumption; [repeat split|apply sqnb_sqn; exact SQ]|].
   eapply BTeq_trans; [apply dscale0_eq; [reflexivity|exact H1]|].
   apply BTeq_sym. apply rmul_scalar.
+Qed.
+
+(* one multiplication step by a 0-d tensor *)
+Lemma mul_raw0_step x r0 r X D :
+  wf x -> scalar0 r0 -> safe_mulc_step x (c0 r0) = true -> alg_mul x (ARaw r0) = Ok r -> denote x == X ->
+  dense_mul X (ARaw r0) = Ok D -> denote r == D.
+Proof.
+  intros W (R1 & R2 & R3) HS HA H1 HD. unfold safe_mulc_step in HS. rewrite !andb_true_iff, negb_true_iff in HS. destruct HS as ((NZ & CV) & SQ).
+  assert (HA' : alg_mul_constant x (rscalar r0) = Ok r).
+  { assert (HM : mul_dispatch (alg_mul_constant x) x (ARaw r0) = Ok r) by (destruct x; simpl in NZ; try discriminate; exact HA).
+    unfold mul_dispatch in HM. rewrite R1 in HM. unfold rnumel in HM. rewrite R1 in HM. simpl in HM. exact HM. }
+  assert (S0 : scalar0 (rscalar r0)) by (repeat split).
+  assert (V0 : c0 (rscalar r0) = c0 r0) by (unfold c0, rscalar, mkraw, rval; simpl; rewrite R1; reflexivity).
+  unfold dense_mul, dense_ew in HD. simpl argval in HD.
+  assert (RC : rcompat (to_raw X) r0 = true) by (unfold rcompat; rewrite R1; reflexivity).
+  rewrite RC in HD. okinv HD.
+  eapply BTeq_trans; [apply (alg_mul_constant_correct0 x (rscalar r0) r W S0 CV); [rewrite V0; apply sqnb_sqn; exact SQ|exact HA']|].
+  eapply BTeq_trans; [apply dscale0_eq; [reflexivity|exact H1]|].
+  eapply BTeq_trans; [apply (dscale0_const X (rscalar r0) (zconst (c0 r0))); [reflexivity|reflexivity|exact V0]|].
+  eapply BTeq_trans; [apply BTeq_sym; apply rmul_scalar|].
+  (* the raw product only reads the single entry of r0 *)
+  unfold of_raw, rmul, to_raw, zconst, mkraw. simpl. rewrite R1. simpl.
+  apply BTeq_intro; simpl; try reflexivity.
+  intros I i j _ _ _. unfold rval, c0. ub. rewrite ?R1. reflexivity.
 Qed.
 
 Lemma guard_ok {A} x (k : result A) r : guard x k = Ok r -> wf x /\ k = Ok r.
@@ -224,17 +265,39 @@ Proof.
     * apply dmm_eq; try assumption.
       -- rewrite (BTeq_bsh _ _ H1), (BTeq_bsh _ _ H2). exact CC2.
       -- rewrite (BTeq_nc _ _ H1), (BTeq_nr _ _ H2). symmetry. exact CC1.
-  - (* operator * python number *)
+  - (* operator * python number / 0-d tensor *)
     destruct o; try discriminate. destruct t; try discriminate.
-    simpl in HA, HD, HS. binv HA. apply guard_ok in HA0. destruct HA0 as (W & HA0). simpl in HA0.
-    rewrite E in HS. apply andb_true_iff in HS. destruct HS as (S1 & S2).
-    binv HD. simpl in HD0. pose proof (IHp _ _ HC S1 E E0) as H1.
-    eapply mul_py_step; eassumption.
-  - (* python number * operator *)
+    + simpl in HA, HD, HS. binv HA. apply guard_ok in HA0. destruct HA0 as (W & HA0). simpl in HA0.
+      rewrite E in HS. apply andb_true_iff in HS. destruct HS as (S1 & S2).
+      binv HD. simpl in HD0. pose proof (IHp _ _ HC S1 E E0) as H1.
+      eapply mul_py_step; eassumption.
+    + apply andb_true_iff in HC. destruct HC as (HC & SR). apply scalar0b_ok in SR.
+      simpl in HA, HD, HS. binv HA. apply guard_ok in HA0. destruct HA0 as (W & HA0). simpl in HA0.
+      rewrite E in HS. apply andb_true_iff in HS. destruct HS as (S1 & S2).
+      binv HD. simpl in HD0. pose proof (IHp _ _ HC S1 E E0) as H1.
+      eapply mul_raw0_step; eassumption.
+  - (* python number / 0-d tensor * operator *)
     destruct o; try discriminate. destruct t; try discriminate.
-    simpl in HA, HD, HS. binv HA. apply guard_ok in HA0. destruct HA0 as (W & HA0). simpl in HA0.
+    + simpl in HA, HD, HS. binv HA. apply guard_ok in HA0. destruct HA0 as (W & HA0). simpl in HA0.
+      rewrite E in HS. apply andb_true_iff in HS. destruct HS as (S1 & S2).
+      binv HD. simpl in HD0. pose proof (IHp _ _ HC S1 E E0) as H1.
+      eapply mul_py_step; eassumption.
+    + apply andb_true_iff in HC. destruct HC as (HC & SR). apply scalar0b_ok in SR.
+      simpl in HA, HD, HS. binv HA. apply guard_ok in HA0. destruct HA0 as (W & HA0). simpl in HA0.
+      rewrite E in HS. apply andb_true_iff in HS. destruct HS as (S1 & S2).
+      binv HD. simpl in HD0. pose proof (IHp _ _ HC S1 E E0) as H1.
+      eapply mul_raw0_step; eassumption.
+  - (* division by a python number / tensor whose reciprocal rc is a python number *)
+    assert (HCa : covered p = true /\ exists z, rc = APy z /\ (forall o, t <> AOp o)).
+    { destruct t; try discriminate; destruct rc; try discriminate; (split; [exact HC|eexists; split; [reflexivity|intros o; discriminate]]). }
+    destruct HCa as (HCa & z & -> & NT).
+    simpl in HA, HD, HS. binv HA. apply guard_ok in HA0. destruct HA0 as (W & HA0).
     rewrite E in HS. apply andb_true_iff in HS. destruct HS as (S1 & S2).
-    binv HD. simpl in HD0. pose proof (IHp _ _ HC S1 E E0) as H1.
+    binv HD. pose proof (IHp _ _ HCa S1 E E0) as H1.
+    assert (HA1 : alg_mul a (APy z) = Ok r0).
+    { unfold alg_div in HA0. destruct t; try (exfalso; eapply NT; reflexivity);
+        unfold safe_mulc_step in S2; rewrite !andb_true_iff, negb_true_iff in S2; destruct S2 as ((NZ & _) & _);
+        destruct a; simpl in NZ; try discriminate; exact HA0. }
     eapply mul_py_step; eassumption.
   - (* expand *)
     simpl in HA, HD, HS. binv HA. apply guard_ok in HA0. destruct HA0 as (W & HA0).
@@ -252,10 +315,40 @@ Proof.
     + rewrite !dunsqueeze_dbmap. rewrite (BTeq_bsh _ _ H1).
       apply (dbmap_eq (bsh a0)); [|exact H1|exact (BTeq_bsh _ _ H1)].
       intros I HI. apply inb_ldelete; assumption.
+  - (* permute *)
+    simpl in HA, HD, HS. binv HA. apply guard_ok in HA0. destruct HA0 as (W & HA0).
+    rewrite E in HS. apply andb_true_iff in HS. destruct HS as (S1 & S2).
+    binv HD. unfold dense_permute in HD0. ifd HD0. okinv HD0.
+    pose proof (IHp _ _ HC S1 E E0) as H1.
+    eapply BTeq_trans; [apply (alg_permute_correct a perm); try assumption|].
+    + unfold batch. rewrite (BTeq_bsh _ _ H1). exact Q.
+    + rewrite !dpermute_dbmap. rewrite (BTeq_bsh _ _ H1).
+      apply (dbmap_eq (bsh a0)); [|exact H1|exact (BTeq_bsh _ _ H1)].
+      intros I HI. apply lunperm_inb; assumption.
+  - (* transpose of two batch dimensions *)
+    simpl in HA, HD, HS. binv HA. apply guard_ok in HA0. destruct HA0 as (W & HA0).
+    rewrite E in HS. apply andb_true_iff in HS. destruct HS as (S1 & S2).
+    binv HD. unfold dense_permute in HD0. ifd HD0. okinv HD0.
+    pose proof (IHp _ _ HC S1 E E0) as H1.
+    assert (EL : length (batch a) = length (bsh a0)) by (unfold batch; rewrite (BTeq_bsh _ _ H1); reflexivity).
+    assert (HA1 : alg_permute a (swap_perm (length (bsh a0)) p0 q) = Ok r0).
+    { rewrite <- EL. destruct a; simpl in S2; try discriminate; exact HA0. }
+    eapply BTeq_trans; [apply (alg_permute_correct a (swap_perm (length (bsh a0)) p0 q)); try assumption|].
+    + rewrite EL. exact Q.
+    + rewrite !dpermute_dbmap. rewrite (BTeq_bsh _ _ H1).
+      apply (dbmap_eq (bsh a0)); [|exact H1|exact (BTeq_bsh _ _ H1)].
+      intros I HI. apply lunperm_inb; assumption.
   - (* mT *)
     simpl in HA, HD, HS. binv HA. apply guard_ok in HA0. destruct HA0 as (W & HA0).
     binv HD. okinv HD0. pose proof (IHp _ _ HC HS E E0) as H1.
     eapply BTeq_trans; [apply (alg_mT_correct a); assumption|]. apply dtr_eq. exact H1.
+  - (* sum over a batch dimension *)
+    simpl in HA, HD, HS. binv HA. apply guard_ok in HA0. destruct HA0 as (W & HA0).
+    binv HD. unfold dense_sum_batch in HD0. ifd HD0. okinv HD0. apply Nat.ltb_lt in Q.
+    pose proof (IHp _ _ HC HS E E0) as H1.
+    eapply BTeq_trans; [apply (alg_sum_batch_correct a p0); try assumption|].
+    + unfold batch. rewrite (BTeq_bsh _ _ H1). exact Q.
+    + apply dsumdim_eq; [exact H1|]. rewrite (BTeq_bsh _ _ H1). exact Q.
   - (* add_diagonal, 0-d diagonal *)
     apply andb_true_iff in HC. destruct HC as (HC & SD). apply scalar0b_ok in SD.
     simpl in HA, HD, HS. binv HA. apply guard_ok in HA0. destruct HA0 as (W & HA0).
